@@ -273,11 +273,15 @@ def gen_dataset_ops(rng):
     rng.shuffle(pending)
     ops.extend(pending)
     adds = [o for o in ops if o["op"] == "add" and o["kind"] != "text"]   # (add_text copies the array it is given)
-    if adds and rng.random() < 0.04:
-        # one array object held by two fields (outside the model's `Writable`: the file holds the array twice)
+    if adds and rng.random() < 0.12:
+        # one array object held by two or three fields (the file holds the array once, under the last of them; the
+        # other groups name that field: `same_as`); the extra fields come after, before or in between
         a0 = rng.choice(adds)
-        ops.append(add_op(0, rng.choice(["", "g1.", "g3."]) + names[7], a0["kind"], ["f", 0, a0["path"]], unit=a0.get("unit"),
-                          level=rng.choice([1, 2, 3])))
+        for k in range(rng.choice([1, 1, 2])):
+            extra = add_op(0, rng.choice(["", "g1.", "g3.", "g1.g2."]) + names[7 + k], a0["kind"], ["f", 0, a0["path"]],
+                           unit=a0.get("unit"), level=rng.choice([1, 2, 3, 3]))
+            j = ops.index(a0) + 1
+            ops.insert(rng.choice([j, len(ops), rng.randint(j, len(ops))]), extra)
     for o in ops:
         o["setup"] = True
     return ops
@@ -340,6 +344,55 @@ def bits_of(o) -> str:
     return "/".join(np.ascontiguousarray(a, dtype=np.float64).tobytes().hex() for a in parts)
 
 
+def words_of(o) -> str:
+    """the rows of an array object as IEEE-754 words (decimal), in the model's row layout: a float / position row is its
+    columns, a sigma row the values followed by the sigmas, a time row jd1, jd2; `-` for text and booleans"""
+    kind = describe(o)[0]
+    if kind in ("bool", "text"):
+        return "-"
+    if kind in ("time", "time_delta"):
+        cols = [np.atleast_1d(np.asarray(o.jd1, dtype=np.float64)), np.atleast_1d(np.asarray(o.jd2, dtype=np.float64))]
+        mat = np.stack(cols, axis=1) if len(cols[0]) else np.zeros((0, 2))
+    elif kind == "sigma":
+        a, sg = np.asarray(o, dtype=np.float64), np.asarray(o.sigma, dtype=np.float64)
+        a, sg = a.reshape(len(a), -1), sg.reshape(len(sg), -1)
+        mat = np.concatenate([a, sg], axis=1)
+    else:
+        a = np.asarray(o, dtype=np.float64)
+        mat = a.reshape(len(a), -1) if a.ndim >= 1 else a.reshape(1, -1)
+    mat = np.ascontiguousarray(mat, dtype=np.float64)
+    if mat.shape[0] == 0:
+        return "[]"
+    w = mat.view(np.uint64)
+    return ";".join(",".join(str(int(x)) for x in r) for r in w)
+
+
+def walk_objects(fields) -> list:
+    """the array objects in the order the model's walk meets them: fields in order (collections recursively), an array,
+    then its `other` (position, posvel), then its `ref_pos` (deltas); every object once"""
+    seen, out = set(), []
+
+    def visit(o):
+        if id(o) in seen:
+            return
+        seen.add(id(o))
+        out.append(o)
+        kind = describe(o)[0]
+        if kind in ("position", "posvel") and getattr(o, "other", None) is not None:
+            visit(o.other)
+        if kind in ("position_delta", "posvel_delta") and getattr(o, "ref_pos", None) is not None:
+            visit(o.ref_pos)
+
+    def rec(fs):
+        for f in fs.values():
+            if f.fieldtype == "collection":
+                rec(f.data._fields)
+            else:
+                visit(f.data)
+    rec(fields)
+    return out
+
+
 def oracle_obj(o, idx, top=True, anon=None) -> str:
     """an attached object that is a field is named by the field; an anonymous one is numbered in order of
     first appearance, so that two fields sharing an anonymous object must share it after the round trip"""
@@ -364,18 +417,20 @@ def oracle_obj(o, idx, top=True, anon=None) -> str:
     return f"{label}{{{kind};{ndim};{cols};{extras(o)};{rows_token(rows)};bits={bits_of(o)}|o={so}|r={sr}|t={st}}}"
 
 
-def oracle_fields(fields, idx, level=0, anon=None) -> list:
+def oracle_fields(fields, idx, level=0, anon=None, pre="") -> list:
     anon = [] if anon is None else anon
     out = []
     for name, f in fields.items():
         if int(f._write_level) < level:
             continue
         if f.fieldtype == "collection":
-            out.append(("C", name, int(f._write_level), oracle_fields(f.data._fields, idx, level, anon)))
+            out.append(("C", name, int(f._write_level), oracle_fields(f.data._fields, idx, level, anon, pre + name + ".")))
         else:
             u = "-" if f._unit is None else "+".join(f._unit)
+            # which array object the field holds: the first written field that holds the very same object
+            first = next(path for path, g in idx if g.data is f.data)
             out.append(("L", name, f.fieldtype, len(f.data), u, int(f._write_level), int(f.multiplier),
-                        oracle_obj(f.data, idx, True, anon)))
+                        oracle_obj(f.data, idx, True, anon), "own" if first == pre + name else "is " + first))
     return out
 
 
@@ -460,7 +515,7 @@ def topology(ds, level) -> set:
     return out
 
 
-LABELS = {"L": ["", "name", "fieldtype", "rows", "unit", "write_level", "multiplier", "contents"],
+LABELS = {"L": ["", "name", "fieldtype", "rows", "unit", "write_level", "multiplier", "contents", "array-object"],
           "C": ["", "name", "collection-write_level", "fields"]}
 
 
@@ -580,7 +635,16 @@ def reread_history(ctx: Ctx, ds, e, path, level, meta, case):
                     {**case, "history": "write,read,modify-result,read"})
 
 
-def one_dataset(ctx: Ctx, setup_ops, level: int, meta: dict, tmp: str, tag: str, mult: dict = None, tattr: dict = None):
+def meta_suffix(meta_written: dict, meta_read, vars_read) -> str:
+    """the meta / vars part of the canonical rendering of a dataset read back: keys in the order they were written (the
+    order of HDF5 attributes is not part of the statement), unexpected keys after them"""
+    keys = [k for k in meta_written if k in meta_read] + sorted(k for k in meta_read if k not in meta_written)
+    return ("#M:" + ";".join(hexs(k) + "=" + " ".join(meta_tokens(meta_read[k])) for k in keys)
+            + "#V:" + " ".join(meta_tokens(dict(vars_read))))
+
+
+def one_dataset(ctx: Ctx, setup_ops, level: int, meta: dict, tmp: str, tag: str, mult: dict = None, tattr: dict = None,
+                dvars: dict = None):
     from midgard.data import dataset
 
     rw = RealWorld()
@@ -595,6 +659,8 @@ def one_dataset(ctx: Ctx, setup_ops, level: int, meta: dict, tmp: str, tag: str,
     ds = rw.ds[0]
     for k, v in meta.items():
         ds.meta[k] = v
+    dvars = dvars or {}
+    ds.vars.update(dvars)
     mult = mult or {}
     for path, m in mult.items():      # the multiplier of a field (not part of the model: oracle only)
         try:
@@ -620,7 +686,12 @@ def one_dataset(ctx: Ctx, setup_ops, level: int, meta: dict, tmp: str, tag: str,
                 ctx.count("time-attribute:" + ("field" if how == "f" else "anonymous"))
             except Exception:
                 ctx.count("time-attribute:not-set")
-    case = {"ops": concrete, "level": level, "meta": {k: meta_tokens(v) for k, v in meta.items()}, "mult": mult, "tattr": tattr}
+    case = {"ops": concrete, "level": level, "meta": {k: meta_tokens(v) for k, v in meta.items()}, "mult": mult, "tattr": tattr,
+            "vars": meta_tokens(dvars)}
+    if dvars:
+        ctx.count("vars:non-empty")
+    for v in meta.values():
+        ctx.count("meta-value:" + ("None(unsavable)" if v is None else type(v).__name__))
     nontrivial = any(o["op"] == "add" for o in concrete)
     for o in concrete:
         if o["op"] == "addcoll":
@@ -641,6 +712,7 @@ def one_dataset(ctx: Ctx, setup_ops, level: int, meta: dict, tmp: str, tag: str,
             try:
                 e = dataset.Dataset.read(path)
                 impl = "ok:" + render_ds(e)
+                impl_full = impl + meta_suffix(meta, e.meta, e.vars)
             except Exception as ex:
                 impl = "ERR:r:" + _enum(ex)
                 rw.last_exc = ex
@@ -649,12 +721,24 @@ def one_dataset(ctx: Ctx, setup_ops, level: int, meta: dict, tmp: str, tag: str,
             rw.last_exc = ex
     # ---- model
     line = "c10 rt " + units_token() + " " + " | ".join(("q " + " ".join(op_tokens(o))) for o in concrete) + f" | write 0 {level}"
-    model = ctx.driver.ask1(line)
+    # the whole dataset (fields, meta, vars) goes through the model's writeDSM / readBackM (theorem read_write_full)
+    linem = ("c10 rtm " + units_token() + " " + " | ".join(("q " + " ".join(op_tokens(o))) for o in concrete)
+             + f" | M {len(meta)} " + " ".join(hexs(k) + " " + " ".join(meta_tokens(v)) for k, v in meta.items())
+             + " | " + " ".join(["V", str(len(dvars))] + meta_tokens(dvars)[2:]) + f" | write 0 {level}")
+    model_full = ctx.driver.ask1(linem)
+    model = model_full.split("#M:", 1)[0]
     restr = ctx.driver.ask1(line.replace("c10 rt ", "c10 restrict ", 1))
     info = ctx.driver.ask1(line.replace("c10 rt ", "c10 info ", 1))
     ctx.traces += 1
-    if model != impl:
-        ctx.disagree("write/read of a dataset", case, model, impl)
+    if not impl.startswith("ok:"):
+        impl_full = impl
+    if model_full != impl_full:
+        ctx.disagree("write/read of a dataset (fields, meta, vars)", case, model_full, impl_full)
+    if any(v is None for v in meta.values()):
+        # a bare None cannot be saved: both sides must refuse (TypeError); nothing more to compare
+        if impl != "ERR:w:unsavable":
+            ctx.violate("meta:None-accepted", f"Dataset.write accepted a meta value None: {impl[:80]}", case)
+        return
     # the hypothesis of the theorems (Props.C10.read_write / refs_restored): evaluated by the model on this dataset;
     # the branches of the model's write / read this dataset takes (coverage of the generator)
     if info.startswith("W:"):
@@ -675,7 +759,7 @@ def one_dataset(ctx: Ctx, setup_ops, level: int, meta: dict, tmp: str, tag: str,
         ctx.count("topology " + t)
     _ids = [id(f.data) for _, f in restricted_index(ds, level)]
     if len(set(_ids)) < len(_ids):
-        ctx.count("topology one array object held by two written fields (not Writable)")
+        ctx.count("topology one array object held by several written fields (same_as)")
     # the model's own statement of the property: read(write d) renders like restrict d  (identities modulo
     # the numbering are compared by the oracle below; here only the shape of the claim is counted)
     ctx.count("model-ok" if model.startswith("ok:") else "model-" + model)
@@ -688,6 +772,23 @@ def one_dataset(ctx: Ctx, setup_ops, level: int, meta: dict, tmp: str, tag: str,
     if impl.startswith("ERR:r:"):
         ctx.violate("read:raises:" + _site(rw.last_exc), f"Dataset.read of a file written by Dataset.write raised {type(rw.last_exc).__name__}: {rw.last_exc}", case)
         return
+    # bit patterns: the same dataset with every numeric array given to the model as IEEE-754 words (theorem
+    # bits_identical speaks about exactly these cells); compared with the words of the arrays read back by the real code
+    try:
+        btoks = [words_of(o) for o in walk_objects(ds._fields)]
+        bline = ("c10 rtbits " + units_token() + " " + " | ".join(("q " + " ".join(op_tokens(o))) for o in concrete)
+                 + " | B " + " ".join(btoks) + f" | write 0 {level}")
+        bmodel = ctx.driver.ask1(bline)
+        bimpl = "ok:" + "|".join(words_of(o) for o in walk_objects(e._fields))
+        ctx.count("bits:compared")
+        if any(t not in ("-", "[]") and any(int(x) >> 63 and not (int(x) << 1) & (2**64 - 1) for r in t.split(";") for x in r.split(",")) for t in btoks):
+            ctx.count("bits:dataset-with-negative-zero")
+        if any(t not in ("-", "[]") and any(((int(x) >> 52) & 0x7ff) == 0x7ff and int(x) & (2**52 - 1) for r in t.split(";") for x in r.split(",")) for t in btoks):
+            ctx.count("bits:dataset-with-NaN")
+        if bmodel != bimpl and bmodel != "?":
+            ctx.disagree("bit patterns of the arrays read back", case, bmodel[:600], bimpl[:600])
+    except Exception as ex:     # the comparison itself must not stop the oracle below
+        ctx.count("bits:not-compared:" + type(ex).__name__)
     idx_w = restricted_index(ds, level)
     want = (ds.num_obs, oracle_fields(ds._fields, idx_w, level))
     got = (e.num_obs, oracle_fields(e._fields, field_index(e._fields), 0))
@@ -703,7 +804,15 @@ def one_dataset(ctx: Ctx, setup_ops, level: int, meta: dict, tmp: str, tag: str,
         return
     if restr != "ok:" + render_ds_restricted(ds, level):
         ctx.disagree("restrict (model of 'fields of that level')", case, restr, "ok:" + render_ds_restricted(ds, level))
+    # vars
+    if not _same(dict(dvars), dict(e.vars)):
+        ctx.violate("vars", f"vars: wrote {dvars!r}, read {dict(e.vars)!r}", case)
+        return
     # meta
+    extra = [k for k in e.meta if k not in meta]
+    if extra:
+        ctx.violate("meta:extra-key", f"meta keys {extra!r} were not written", case)
+        return
     for k, v in meta.items():
         if k not in e.meta:
             ctx.violate("meta:missing", f"meta key {k!r} is gone", case)
@@ -756,6 +865,8 @@ def _enum(e):
     from .c09_world import err_enum
     if isinstance(e, KeyError):
         return "attribute"
+    if isinstance(e, TypeError) and "Cannot save attribute" in str(e):
+        return "unsavable"
     return err_enum(e)
 
 
@@ -834,15 +945,22 @@ def run(ctx: Ctx):
                 if "codec" in c:
                     codec_case(ctx, tokens_meta(c["codec"]))
                 else:
-                    one_dataset(ctx, c["ops"], c["level"], {k: tokens_meta(v) for k, v in c.get("meta", {}).items()}, tmp, "corpus", c.get("mult"), c.get("tattr"))
+                    one_dataset(ctx, c["ops"], c["level"], {k: tokens_meta(v) for k, v in c.get("meta", {}).items()}, tmp, "corpus", c.get("mult"), c.get("tattr"), tokens_meta(c["vars"]) if c.get("vars") else None)
         for t in TRICKY:
             codec_case(ctx, t)
             codec_case(ctx, [t, {"k": t}])
         for _ in range(ctx.budget(3000, 100000)):
             codec_case(ctx, gen_meta(rng))
         for _ in range(ctx.budget(1300, 20000)):
-            meta = {f"k{i}": gen_meta(rng) for i in range(rng.choice([0, 1, 2, 4]))}
+            meta = {rng.choice(["k", "key ", "nan", "a.b", "K"]) + str(i): gen_meta(rng) for i in range(rng.choice([0, 1, 2, 4]))}
             meta = {k: v for k, v in meta.items() if v is not None}
+            if rng.random() < 0.03:      # a bare None: Dataset.write must refuse it (TypeError), as the model's writeDSM does
+                meta["none" + str(len(meta))] = None
+                meta = dict(rng.sample(list(meta.items()), len(meta)))
+            dvars = {}
+            if rng.random() < 0.5:
+                for i in range(rng.choice([1, 2, 3])):
+                    dvars[rng.choice(TRICKY[:8] + ["station", "date"]) + str(i)] = gen_atom(rng) if rng.random() < 0.7 else gen_meta(rng, 2, False)
             ops = gen_dataset_ops(rng)
             mult = {o["path"]: rng.choice([2, -1, 3]) for o in ops if o["op"] == "add" and rng.random() < 0.15}
             times = [o["path"] for o in ops if o["op"] == "add" and o["kind"] == "time"]
@@ -850,7 +968,7 @@ def run(ctx: Ctx):
             for o in ops:
                 if o["op"] == "add" and o["kind"] in ("position", "posvel") and rng.random() < 0.25:
                     tattr[o["path"]] = ["f", rng.choice(times)] if times and rng.random() < 0.65 else ["a", rng.choice([0, 0, 1])]
-            one_dataset(ctx, ops, rng.choice([1, 2, 3]), meta, tmp, "random", mult, tattr)
+            one_dataset(ctx, ops, rng.choice([1, 2, 3]), meta, tmp, "random", mult, tattr, dvars)
     finally:
         shutil.rmtree(tmp, ignore_errors=True)
 
@@ -911,7 +1029,7 @@ def replay(payload):
         if "codec" in c:
             codec_case(ctx, tokens_meta(c["codec"]))
         else:
-            one_dataset(ctx, c["ops"], c["level"], {k: tokens_meta(v) for k, v in c.get("meta", {}).items()}, tmp, "replay", c.get("mult"), c.get("tattr"))
+            one_dataset(ctx, c["ops"], c["level"], {k: tokens_meta(v) for k, v in c.get("meta", {}).items()}, tmp, "replay", c.get("mult"), c.get("tattr"), tokens_meta(c["vars"]) if c.get("vars") else None)
     finally:
         shutil.rmtree(tmp, ignore_errors=True)
     for v in ctx.violations:
